@@ -218,7 +218,12 @@ func (g *TGen) Target() ast.Expression {
 // Statement wraps an expression: expression statement, let initialiser, or
 // return value inside a function declaration.
 func (g *TGen) Program() *ast.Program {
-	g.emit(KProgram, 1)
+	follow := sym.Param("follow", 0) == 1 // a second, indented statement follows
+	if follow {
+		g.emit(KProgram, 2)
+	} else {
+		g.emit(KProgram, 1)
+	}
 	var st ast.Statement
 	switch sym.Choose("wrap", 3) {
 	case 0:
@@ -237,6 +242,16 @@ func (g *TGen) Program() *ast.Program {
 		st = &ast.FunctionDeclaration{Token: tk(token.FUNCTION, "function"), Name: name, Parameters: []*ast.Identifier{},
 			Body: &ast.BlockStatement{Token: tk(token.LBRACE, "{"), Statements: []ast.Statement{ret}, RBrace: tk(token.RBRACE, "}")}}
 	}
+	stmts := []ast.Statement{st}
+	if follow {
+		g.emit(KFuncDecl)
+		name := g.ident("g")
+		g.emit(0, KBlock, 1, KReturn)
+		ret := &ast.ReturnStatement{Token: tk(token.RETURN, "return"), ReturnValue: g.ident("a")}
+		g.emit(KEnd)
+		stmts = append(stmts, &ast.FunctionDeclaration{Token: tk(token.FUNCTION, "function"), Name: name, Parameters: []*ast.Identifier{},
+			Body: &ast.BlockStatement{Token: tk(token.LBRACE, "{"), Statements: []ast.Statement{ret}, RBrace: tk(token.RBRACE, "}")}})
+	}
 	g.emit(KEnd)
-	return &ast.Program{Statements: []ast.Statement{st}}
+	return &ast.Program{Statements: stmts}
 }
